@@ -248,6 +248,9 @@ func checkC12(p *Program, r *Report) {
 	// ---- the notations CQL values are built from ([bytes], [short bytes], counts)
 	primitiveLayout(p, r, "notation-layout", 4, map[string]bool{"bytes": true, "shortbytes": true, "int": true, "short": true})
 
+	// ---- v2 cannot express a NULL element: exactly nil is refused, an empty element is written
+	v2ElementGuard(p, r, "v2-null-refusal")
+
 	// ---- container-layout
 	pe := newPenum(p)
 	vers := supportedVersions(p, pe)
